@@ -342,12 +342,14 @@ func sameRecv(a, b ssa.Value) bool {
 func init() {
 	register(&Check{
 		ID:   "C13",
-		Expl: "Decides only the cache-coherence clause 'editing a set leaves the compiled form equivalent to the edited pattern list' in its structural form: for every defined-set type that keeps compiled matchers next to its pattern lists (found from the code: a parameterless method that recomputes 'matchers' from other fields), every function that modifies a pattern list — directly or through the embedded list's Append/Remove/Replace — reaches that rebuild method on every path to a successful return; and (E2.index-owned) the any-match indexes derived from the matcher list own their bitmaps (no aliasing of a matcher's bitmap, no write through the matcher list).",
+		Expl: "Decides only the cache-coherence clause 'editing a set leaves the compiled form equivalent to the edited pattern list' in its structural form: for every defined-set type that keeps compiled matchers next to its pattern lists (found from the code: a parameterless method that recomputes 'matchers' from other fields), every function that modifies a pattern list — directly or through the embedded list's Append/Remove/Replace — reaches that rebuild method on every path to a successful return; and (E2.index-owned) the any-match indexes derived from the matcher list own their bitmaps (no aliasing of a matcher's bitmap, no write through the matcher list). (E5.lossy-key) Of the clause 'the fast paths decide what the regular expressions decide' one structural necessary condition is decided: no lookup in the bitmaps and per-AS tables is keyed by a value cut down to fewer bits unless the value provably fits or the function consumes the dropped bits separately — otherwise communities that differ only in the dropped bits are indistinguishable to the fast path but not to the regular expression; and (E5.packed-field) wherever a community word is packed as high<<k | low the low part provably fits below bit k.",
 		Not:  "That the compiled matchers (exact, wildcard, bitmap, any-index fast paths) decide what the regular expressions decide is a statement about strings and is not decided.",
 		Run: func(c *Ctx) {
 			c.ruleRatchets("C13")
 			c.ruleCompiledSetCoherence()
 			c.ruleIndexOwned()
+			c.ruleLossyKey("E5.lossy-key", 6)
+			c.rulePackedField("E5.packed-field", 2)
 		},
 	})
 }
